@@ -78,6 +78,7 @@ type result struct {
 	Classes      map[string]int `json:"classes"`
 	Findings     []vio          `json:"findings,omitempty"`
 	Samples      []string       `json:"samples,omitempty"`
+	Ms           int64          `json:"ms"`
 }
 
 var scratchRoot string
@@ -127,6 +128,7 @@ func worker(tb []byte, progress func()) []byte {
 		gcSet = true
 	}
 	var t task
+	t0 := time.Now()
 	res := result{Classes: map[string]int{}}
 	if err := json.Unmarshal(tb, &t); err != nil {
 		res.Err = err.Error()
@@ -157,6 +159,7 @@ func worker(tb []byte, progress func()) []byte {
 		res.Err = "unknown task kind " + t.Kind
 	}
 	fdHygiene()
+	res.Ms = time.Since(t0).Milliseconds()
 	return mustJSON(res)
 }
 
@@ -215,6 +218,11 @@ func doCrash(t *task, res *result, progress func()) {
 	r, err := runHistory(filepath.Join(root, "h"), t.Seg, ops)
 	if err == errInapplicable {
 		res.Inapplicable = true
+		return
+	}
+	if ae, ok := err.(*apiError); ok {
+		res.Findings = append(res.Findings, vio{F: finding{Kind: "failure-without-fault", Cmd: ae.call, Shape: "no-fault", Detail: ae.Error()},
+			Replay: replayDoc{Mode: "crash", Seg: t.Seg, Ops: t.Ops, Long: t.Long, Point: -1}})
 		return
 	}
 	if err != nil {
@@ -304,6 +312,15 @@ func imageShape(o *observation, im *image) string {
 		}
 		lab = lab[:i+1] + b
 	}
+	if strings.HasPrefix(lab, "ret:") {
+		if si, ok := shapeByName(lab[4:]); ok {
+			switch shapes[si].Kind {
+			case "snap", "reopen":
+			default:
+				lab = "ret:Save"
+			}
+		}
+	}
 	s := "crash@" + lab
 	switch {
 	case im.short:
@@ -325,6 +342,10 @@ func doSingle(d *replayDoc, res *result, verbose bool) {
 		return
 	}
 	r, err := runHistory(filepath.Join(root, "h"), d.Seg, ops)
+	if ae, ok := err.(*apiError); ok {
+		res.Findings = append(res.Findings, vio{F: finding{Kind: "failure-without-fault", Cmd: ae.call, Shape: "no-fault", Detail: ae.Error()}, Replay: *d})
+		return
+	}
 	if err != nil {
 		res.Err = err.Error()
 		return
